@@ -98,6 +98,7 @@ func (h *Handler) spoofLoop(addr packet.Addr) {
 			return
 		}
 
+		packet.VerifYieldPoint("arp:spoofLoop:before-send")
 		// Re-arp target to change router to host so all traffic comes to us
 		//
 		// Announce to target that we own the router IP; This will update the target arp table with our mac
